@@ -628,26 +628,37 @@ func (c *converter) fullSyncTCP() {
 
 func (c *converter) fullSyncAnnotations() {
 	c.fullSyncTCP()
-	for _, host := range c.haproxy.Hosts().Items() {
-		if ann, found := c.hostAnnotations[host]; found {
-			c.updater.UpdateHostConfig(host, ann)
-		}
-	}
-	for _, backend := range c.haproxy.Backends().Items() {
-		if ann, found := c.backendAnnotations[backend]; found {
-			c.updater.UpdateBackendConfig(backend, ann)
-		}
-	}
+	c.syncAnnotations(c.haproxy.Hosts().Items(), c.haproxy.Backends().Items())
 }
 
 func (c *converter) partialSyncAnnotations() {
 	c.fullSyncTCP()
-	for _, host := range c.haproxy.Hosts().ItemsAdd() {
+	c.syncAnnotations(c.haproxy.Hosts().ItemsAdd(), c.haproxy.Backends().ItemsAdd())
+}
+
+// syncAnnotations applies the annotations in a predictable order - hostnames
+// and backend IDs - instead of the order of the maps, otherwise conflicting
+// configurations between two hosts, like the same redirect source, would
+// have a distinct winner on every run.
+func (c *converter) syncAnnotations(hosts map[string]*hatypes.Host, backends map[string]*hatypes.Backend) {
+	hostnames := make([]string, 0, len(hosts))
+	for hostname := range hosts {
+		hostnames = append(hostnames, hostname)
+	}
+	sort.Strings(hostnames)
+	for _, hostname := range hostnames {
+		host := hosts[hostname]
 		if ann, found := c.hostAnnotations[host]; found {
 			c.updater.UpdateHostConfig(host, ann)
 		}
 	}
-	for _, backend := range c.haproxy.Backends().ItemsAdd() {
+	backendIDs := make([]string, 0, len(backends))
+	for id := range backends {
+		backendIDs = append(backendIDs, id)
+	}
+	sort.Strings(backendIDs)
+	for _, id := range backendIDs {
+		backend := backends[id]
 		if ann, found := c.backendAnnotations[backend]; found {
 			c.updater.UpdateBackendConfig(backend, ann)
 		}
